@@ -1,5 +1,6 @@
 import Lean.Data.Json
 import XModel.Table
+import XModel.TableExpr
 /-! Line-protocol suite `table`: replays table histories on `XModel.Table`. -/
 namespace DTable
 open Lean TableM Cache
@@ -82,6 +83,19 @@ def emptyTbl : Tbl := { index := "name", colNames := [], data := [], cache := no
 
 def intsJson (l : List Int) : Json := .arr (l.map (fun i => Json.num (JsonNumber.fromInt i))).toArray
 
+/-- column expressions: `["col", name] | ["lit", k] | ["add", a, b] | ["sub", a, b] | ["mul", a, b] | ["neg", a]` -/
+partial def cexprOfJson (j : Json) : Option CExpr :=
+  match j with
+  | .arr a => (match a.toList with
+    | [.str "col", .str n] => some (.col n)
+    | [.str "lit", x] => (x.getInt?.toOption).map CExpr.lit
+    | [.str "add", x, y] => do let x ← cexprOfJson x; let y ← cexprOfJson y; pure (.add x y)
+    | [.str "sub", x, y] => do let x ← cexprOfJson x; let y ← cexprOfJson y; pure (.sub x y)
+    | [.str "mul", x, y] => do let x ← cexprOfJson x; let y ← cexprOfJson y; pure (.mul x y)
+    | [.str "neg", x] => (cexprOfJson x).map CExpr.neg
+    | _ => none)
+  | _ => none
+
 def step (t : Tbl) (j : Json) : Tbl × Json :=
   match fieldStr j "op" with
   | some "new" =>
@@ -122,6 +136,13 @@ def step (t : Tbl) (j : Json) : Tbl × Json :=
       out t1 (excJson x) (match x with | .ok i => .num (JsonNumber.fromInt i) | .error _ => .null)
     | _, _ => bad t "lookup"
   | some "labels" => out t (.str "ok") (.arr ((uniqueLabels t).map Json.str).toArray)
+  | some "colexpr" =>
+    -- `t['a+2*b']`: the model of XModel/TableExpr.lean (integer columns, + - * and unary minus)
+    match (field j "expr").bind cexprOfJson with
+    | some e =>
+      let x := getExpr t e
+      out t (excJson x) (match x with | .ok v => .arr (v.map cellToJson).toArray | .error _ => .null)
+    | none => bad t "colexpr"
   | some "indices" =>
     match (field j "sel").bind selOfJson with
     | some s =>
